@@ -5,6 +5,7 @@ Uses C11's frame lemmas (`Lemmas/C11Fan.lean`, `C11Disk.lean`, `C11Loft.lean`); 
 -/
 import CBV.Model.C19
 import CBV.Lemmas.C11Loft
+import CBV.Lemmas.C11Wrap
 import Mathlib.Tactic.IntervalCases
 
 namespace CBV.C19
@@ -113,5 +114,33 @@ theorem edgeOn_iff (P : Nat → Prop) (p : Nat → Bool) (n : Nat) (hP : ∀ i, 
     exact ⟨j, hj, (hP _ (hq j hj)).1 h1, (hP _ (hq _ (Nat.mod_lt _ (by decide)))).1 h2⟩
   · rintro ⟨j, hj, h1, h2⟩
     exact ⟨j, hj, (hP _ (hq j hj)).2 h1, (hP _ (hq _ (Nat.mod_lt _ (by decide)))).2 h2⟩
+
+/-! ### `WrappedDisk` (round 6f): the positions at the distance of the corner point are exactly the four corners of the square -/
+
+/-- `WrappedDisk(center, corner_point, radius, normal)` in any placement: a position is at the distance of the corner point from
+    the centre iff it is one of the four `get_outer_points` (index ≥ 8) — the inner square (`diagonal_ratio · radius`) and the
+    arc points (`radius`) are strictly inside; `rr = radius / |corner − centre|` with `0 < rr < 1`, `0 < dg < 1` -/
+theorem wrapped_onCorner_iff (c corner u : P3 K) (h dg radius wn : K) (hd0 : 0 < dg) (hd1 : dg < 1)
+    (hr0 : 0 < radius / wn) (hr1 : radius / wn < 1)
+    (hu : nsq u = 1) (hp : dot u (sub corner c) = 0) (hr : 0 < nsq (sub corner c)) (i : Nat) (hi : i < 12) :
+    nsq (sub ((wrappedPts c corner u h dg radius wn).getD i c) c) = nsq (sub corner c) ↔ 8 ≤ i := by
+  have hrr : radius / wn * (radius / wn) < 1 := by nlinarith
+  have hdr0 : 0 < dg * (radius / wn) := mul_pos hd0 hr0
+  have hdr1 : dg * (radius / wn) < 1 := by nlinarith
+  have hdd : dg * (radius / wn) * (dg * (radius / wn)) < 1 := by nlinarith
+  rw [wrappedPts_frame c corner u h dg radius wn hp, getD_map_frame, nsq_frame _ _ _ _ hu hp, wrappedL_lit]
+  have key : ∀ x y : K, ((x * x + y * y) * nsq (sub corner c) + 0 * 0 = nsq (sub corner c)) ↔ x * x + y * y = 1 := by
+    intro x y
+    constructor
+    · intro e
+      have e' : (x * x + y * y - 1) * nsq (sub corner c) = 0 := by linear_combination e
+      rcases mul_eq_zero.mp e' with h0 | h0
+      · linarith
+      · exact absurd h0 (ne_of_gt hr)
+    · intro e; rw [e]; ring
+  interval_cases i <;> simp only [List.getD_cons_zero, List.getD_cons_succ] <;> rw [key] <;>
+    first
+      | (apply iff_of_true; ring1; omega)
+      | (apply iff_of_false; (intro e; nlinarith [hrr, hdd, e]); omega)
 
 end CBV.C19
